@@ -172,6 +172,55 @@ def run(chk):
     r3.ob("Constant node returns its (const, see C07 R7.8) value by value", okk, f.where, f["q"], "constant node hands out something else than a copy of its const handle")
     r3.require(9, "obligations")
 
+    # ------------------------------------------------------------------ R8.4 constants are deeply immutable
+    r4 = chk.rule("R8.4", "a value stored in a Constant node holds no Boxed_Value handles of its own: constness of a boxed container is shallow, its elements would be shared by every evaluation",
+                  "evaluating a literal never hands out mutable parts of the syntax tree")
+    from ..paths import ref_inits
+    nsites = 0
+    seen4 = set()
+    for f in prog.fns:
+        if f["tk"] == "pattern" or not (f["q"].startswith("chaiscript::parser::") or f["q"].startswith("chaiscript::optimizer::")):
+            continue
+        locs = None
+        for n in walk(f["body"]):
+            if n.get("k") != "call" or n.get("name") not in ("make_node", "make_unique"):
+                continue
+            d = prog.decl(f, n.get("fn")) if n.get("fn") is not None else None
+            if d is None or not any("Constant_AST_Node<" in t for t in (d.get("targs") or [])[:2]):
+                continue
+            val = n["args"][-1] if n.get("args") else None
+            if val is None:
+                continue
+            locs = locs or ref_inits(f)
+            types = set()
+            stack = [val]
+            depth = 0
+            while stack and depth < 200:
+                depth += 1
+                e = stack.pop()
+                for x in walk(e):
+                    if x.get("k") == "call" and x.get("name") in ("const_var", "var") or (x.get("k") == "construct" and strip_targs(prog.T(f, x.get("t"))) == "chaiscript::Boxed_Value"):
+                        for a in x.get("args", [])[:1]:
+                            a0 = strip_casts(a)
+                            while a0.get("k") == "call" and a0.get("name") in ("move", "forward") and a0.get("args"):
+                                a0 = strip_casts(a0["args"][0])
+                            if isinstance(a0.get("t"), int):
+                                types.add(prog.T(f, a0["t"]))
+                    if x.get("k") == "ref" and x.get("rk") in ("local", "binding"):
+                        v = locs.get(x.get("vid"))
+                        if v is not None and v.get("init") is not None and id(v) not in seen4:
+                            seen4.add(id(v))
+                            stack.append(v["init"])
+            nsites += 1
+            bad = sorted(t for t in types if "chaiscript::Boxed_Value" in t and strip_targs(t.replace("const ", "").strip()) != "chaiscript::Boxed_Value")
+            ident = "%s: Constant node holds a value of type %s" % (strip_targs(f["q"]), ", ".join(x[:50] for x in sorted(types)) or "(forwarded)")
+            if ident in seen4:
+                continue
+            seen4.add(ident)
+            r4.ob(ident, not bad, "%s:%d" % (f["file"], n["l"]), f["q"],
+                  "%s contains Boxed_Value handles: the node hands the same element objects to every evaluation, `v[0] += 1` on the result edits the literal in the tree" % bad)
+    r4.require(8, "Constant node constructions")
+
 
 def is_static(prog, rec, m):
     if m.get("fn") is None:
